@@ -76,6 +76,17 @@ class Workdir:
 
     def __init__(self, salt=None):
         """salt: value of spec/Salt.tla's SaltValue in this scratch directory (None: VERIF_SEED, default 0)"""
+        # scratch directories of runs that were killed (timeouts) are not removed by __exit__: drop old ones
+        try:
+            now = time.time()
+            base = tempfile.gettempdir()
+            for f in os.listdir(base):
+                if f.startswith('verif_tlc_'):
+                    q = os.path.join(base, f)
+                    if now - os.path.getmtime(q) > 8 * 3600:
+                        shutil.rmtree(q, ignore_errors=True)
+        except Exception:
+            pass
         self.path = tempfile.mkdtemp(prefix='verif_tlc_')
         if salt is None:
             salt = int(os.environ.get('VERIF_SEED', '0') or 0)
@@ -109,7 +120,7 @@ def run_tlc(workdir, module, cfg_text, tag='run', mc_text=None, workers=1, extra
         with open(os.path.join(workdir.path, module + '.tla'), 'w') as f:
             f.write(mc_text)
     meta = os.path.join(workdir.path, 'meta_%s' % tag)
-    cmd = ['java', '-Xmx%s' % heap, '-Xss64m', '-XX:+UseParallelGC', '-cp', TLC_JAR, 'tlc2.TLC',
+    cmd = ['java', '-Xmx%s' % heap, '-Xss64m', '-XX:+UseParallelGC', '-Djava.io.tmpdir=' + workdir.path, '-cp', TLC_JAR, 'tlc2.TLC',
            '-workers', str(workers), '-metadir', meta, '-noGenerateSpecTE',
            '-config', cfg_path] + list(extra_args) + [module + '.tla']
     e = dict(os.environ)
